@@ -327,8 +327,9 @@ class Dimension:
     ) -> None:
         if self._initialized:
             # a dimension first produced anonymously (by arithmetic) takes the name
-            # and symbol it is declared with later
-            if name and not self.name:
+            # and symbol it is declared with later; so does one that was unpickled
+            # (name and all) before this declaration ran
+            if name and self.name in (None, name):
                 self.name = name
                 self._by_name[name] = self
             if symbol and not self.symbol:
@@ -722,11 +723,12 @@ class Prefix:
     ) -> None:
         if self._initialized:
             # a prefix first created anonymously (by arithmetic, or without a name)
-            # takes the name and symbol it is declared with later
-            if name and not self.name:
+            # takes the name and symbol it is declared with later; so does one that
+            # was unpickled (name and all) before this declaration ran
+            if name and self.name in (None, name):
                 self.name = name
                 self._by_name[name] = self
-            if symbol and not self.symbol:
+            if symbol and self.symbol in (None, symbol):
                 self.symbol = symbol
                 self._by_symbol[symbol] = self
             return
